@@ -1,22 +1,79 @@
-"""Scheduler group: nothing is regenerated (the model is hand written and tied by correspondence);
-the fingerprints of the mirrored Python definitions escalate the correspondence budget when
-they change."""
-GENERATORS = []
+"""C05: the scheduler model is hand written (see gen_c01); in addition the outcome table of the worker --
+which answer `pl.worker.cluster.execute` sends for which ending of the algorithm -- is regenerated from
+the AST of `execute`.
 
-MIRRORED = [
-    ('pl/schedule.py', 'organize'),
-    ('pl/schedule.py', 'next_job_batch'),
-    ('pl/schedule.py', 'complete'),
-    ('pl/schedule.py', 'purge'),
-    ('pl/schedule.py', '_purge'),
-    ('pl/schedule.py', '_prune'),
-    ('pl/schedule.py', 'update'),
-    ('pl/schedule.py', 'defer'),
-    ('pl/schedule.py', 'find'),
-    ('pl/schedule.py', 'view_todo'),
-    ('pl/schedule.py', 'view_doing'),
-    ('pl/farm.py', 'dispatch'),
-    ('pl/farm.py', 'rerunid'),
-    ('pl/farm.py', '_put'),
-    ('pl/farm.py', 'Hand._res'),
-]
+Subset understood: inside `execute`, one `try` statement whose body ends with an assignment
+`m = dawgie.pl.message.make(..., suc=<True|False|None>, ...)`, `except` handlers that are bare, or name
+exception classes (a name / attribute or a tuple of them), each assigning `m = ...make(..., suc=<const>)`,
+and a `finally` block that sends `m`.  Anything else raises Untranslatable."""
+import ast
+
+from tools.gen_c01 import MIRRORED as _SCHED
+from tools.translate import Untranslatable, _tree, find_def
+
+MIRRORED = list(_SCHED) + [('pl/worker/cluster.py', 'execute')]
+
+
+def _suc(stmts, where):
+    """the `suc=` constant of the last `m = ...make(...)` assignment among stmts"""
+    for st in reversed(stmts):
+        if (isinstance(st, ast.Assign) and len(st.targets) == 1 and getattr(st.targets[0], 'id', '') == 'm'
+                and isinstance(st.value, ast.Call) and ast.unparse(st.value.func).endswith('message.make')):
+            for kw in st.value.keywords:
+                if kw.arg == 'suc':
+                    if not isinstance(kw.value, ast.Constant) or kw.value.value not in (True, False, None):
+                        raise Untranslatable(f'cluster.execute: suc= of the {where} is not True/False/None')
+                    return {True: '.success', False: '.failure', None: '.invalid'}[kw.value.value]
+            raise Untranslatable(f'cluster.execute: the answer of the {where} has no suc=')
+    return None
+
+
+def _classes(node):
+    if node is None:
+        return '.bare'
+    items = node.elts if isinstance(node, ast.Tuple) else [node]
+    out = []
+    for it in items:
+        name = ast.unparse(it).split('.')[-1]
+        known = {'NoValidInputDataError': '.invalidIn', 'NoValidOutputDataError': '.invalidOut',
+                 'Exception': None, 'BaseException': None}
+        if name not in known:
+            raise Untranslatable(f'cluster.execute: handler for an exception class outside the subset: {name}')
+        if name == 'Exception':
+            return '.exceptions'
+        if name == 'BaseException':
+            return '.bare'
+        out.append(known[name])
+    return '.classes [' + ', '.join(out) + ']'
+
+
+def gen_worker(repo):
+    fn = find_def(_tree(repo, 'pl/worker/cluster.py'), 'execute')
+    tries = [n for n in ast.walk(fn) if isinstance(n, ast.Try)]
+    if len(tries) != 1:
+        raise Untranslatable(f'cluster.execute: {len(tries)} try statements (expected one)')
+    tr = tries[0]
+    body = _suc(tr.body, 'try body')
+    if body is None:
+        raise Untranslatable('cluster.execute: the try body does not build an answer')
+    hs = []
+    for h in tr.handlers:
+        s = _suc(h.body, 'handler')
+        if s is None:
+            raise Untranslatable('cluster.execute: a handler does not build an answer')
+        hs.append(f'({_classes(h.type)}, {s})')
+    sends = any(isinstance(n, ast.Call) and ast.unparse(n.func).endswith('message.send')
+                and n.args and getattr(n.args[0], 'id', '') == 'm' for st in tr.finalbody for n in ast.walk(st))
+    if not sends:
+        raise Untranslatable('cluster.execute: the finally block does not send the answer')
+    L = ['import DawgieVerif.Model.Worker', '', 'namespace DawgieVerif.Generated.WorkerGen',
+         'open DawgieVerif.Worker', '',
+         '/-- the answer built when the algorithm returns normally -/',
+         f'def bodyAnswer : Outcome := {body}', '',
+         '/-- the `except` clauses of `pl.worker.cluster.execute`, in order: what they catch, what they answer -/',
+         'def handlers : List (Catch × Outcome) := [' + ', '.join(hs) + ']', '',
+         'end DawgieVerif.Generated.WorkerGen', '']
+    return 'WorkerGen', '\n'.join(L)
+
+
+GENERATORS = [gen_worker]
